@@ -293,32 +293,61 @@ def rule_r4(chk, db, conf):
             chk.verdict(conf_ok, "R4", "temp-path-confined", prep.loc(bi), "the temp path does not go through the confinement function", nontrivial=False)
     chk.verdict(ok, "R4", "distinct-temp-names", prep.loc(rmw[0][0]) if rmw else prep.loc(),
                 "temp file names are not derived from an atomic read-modify-write of the counter (atomic ops used: %s): concurrent writers can share a temp file" % names)
-    # literal agreement between prepare_file_write and clean_old_tmp_files
-    fmt_lits = []
-    for x in [y for r in lit_roots for y in db.nested(r)]:
-        for bl in x.blocks:
-            if bl["cleanup"]:
+    # literal agreement between prepare_file_write and clean_old_tmp_files (the literals may be named constants, the tests may sit in
+    # a predicate helper or in a closure)
+    def lits_of(roots):
+        out = []
+        seen = set()
+        work = [y for r in roots for y in db.nested(r)]
+        while work:
+            x = work.pop()
+            if x.name in seen:
                 continue
-            for st in bl["stmts"]:
-                for o in st["rv"]["ops"]:
-                    if isinstance(o, dict) and o.get("c") in ("str", "bstr"):
-                        fmt_lits.append(o["v"])
-            if bl["term"]["k"] == "call":
-                for a in bl["term"]["args"]:
-                    c = flow.const_of(x, a)
-                    if c is not None and c.get("c") in ("str", "bstr"):
-                        fmt_lits.append(c["v"])
+            seen.add(x.name)
+            for bl in x.blocks:
+                if bl["cleanup"]:
+                    continue
+                ops = [o for st in bl["stmts"] for o in st["rv"]["ops"]]
+                if bl["term"]["k"] == "call":
+                    ops += [flow.const_of(x, a) or a for a in bl["term"]["args"]]
+                    hb = db.bodies.get(bl["term"]["callee"].get("resolved") or "") or db.bodies.get(callee_def(bl["term"]))
+                    if hb is not None and hb.crate == "s3s_fs" and hb.kind in ("Fn", "AssocFn") and len(seen) < 40 and hb.name not in fscore.confining_fns(db):
+                        work += db.nested(hb)       # a private helper that formats the name / tests it
+                for o in ops:
+                    if not isinstance(o, dict):
+                        continue
+                    if o.get("c") in ("str", "bstr"):
+                        out.append(o["v"])
+                    elif o.get("c") == "item":
+                        out += [v for v in (db.const_str(o["def"]) or []) if isinstance(v, str)]
+        return out
+    fmt_lits = lits_of(lit_roots)
     cl = db.body("s3s_fs::fs::clean_old_tmp_files")
     if cl is None:
         chk.anchor_missing("R4", "clean_old_tmp_files not found")
         return
     pre = suf = None
-    for bi, t in cl.calls():
-        if short(callee_def(t)) == "starts_with":
-            pre = (paths.str_args(cl, t) or [None])[0]
-        if short(callee_def(t)) == "ends_with":
-            suf = (paths.str_args(cl, t) or [None])[0]
-    joined = "".join(fmt_lits)
+    work = list(db.nested(cl))
+    seen = set()
+    while work:
+        x = work.pop()
+        if x.name in seen:
+            continue
+        seen.add(x.name)
+        for bi, t in x.calls():
+            if short(callee_def(t)) in ("starts_with", "ends_with"):
+                args = list(paths.str_args(x, t))
+                for a in t["args"]:
+                    c = flow.const_of(x, a)
+                    if c is not None and c.get("c") == "item":
+                        args += [v for v in (db.const_str(c["def"]) or []) if isinstance(v, str)]
+                if short(callee_def(t)) == "starts_with":
+                    pre = (args or [pre])[0]
+                else:
+                    suf = (args or [suf])[0]
+            hb = db.bodies.get(t["callee"].get("resolved") or "") or db.bodies.get(callee_def(t))
+            if hb is not None and hb.crate == "s3s_fs" and hb.kind in ("Fn", "AssocFn") and len(seen) < 20:
+                work += db.nested(hb)
     chk.verdict(pre is not None and suf is not None and any(pre in l for l in fmt_lits) and any(suf in l for l in fmt_lits), "R4", "cleanup-matches-temp-names", cl.loc(),
                 "clean_old_tmp_files matches %r...%r but prepare_file_write formats names from %s" % (pre, suf, fmt_lits[:4]))
 
